@@ -16,6 +16,10 @@ def file_path_to_key_path(file_path):
 
 
 def key_to_file_path(key):
+    # a key names one file below the store root: "/a" would leave the root, and
+    # "a//b", "./b", "b/" or "a/../b" would share a file with another key
+    if any(level in ("", ".", "..") for level in key.split("/")):
+        raise ValueError(f"invalid key: {key!r}")
     return key
 
 
